@@ -15,7 +15,7 @@ from driver import run_batch
 from wire import to_wire, from_wire, canon, exc_class
 from props.common import scale, depth_of, schema_tags, load_corpus
 
-THEOREMS = ["c15_encode_eq_spec", "c15_core_is_spec", "c15_bytes_strings"]
+THEOREMS = ["c15_encode_eq_spec", "c15_core_is_spec", "c15_bytes_strings", "c15_read_back"]
 TARGETS = ["Properties.C15"]
 
 
@@ -187,12 +187,13 @@ def run(tier, seed):
             reqs.append({"schema": to_wire(s), "value": to_wire(v)})
     spec = run_batch([dict(q, op="spec.json") for q in reqs])
     model = run_batch([dict(q, op="json.enc") for q in reqs])
+    written = run_batch([dict(q, op="spec.written") for q in reqs])     # "the record as written" of c15_read_back
     k = 0
     dec_reqs, dec_meta = [], []
     for s, data in cases:
         risks = sorted(schema_risks(s))
         for v in data:
-            sp, mo = spec[k], model[k]
+            sp, mo, wr = spec[k], model[k], written[k]
             k += 1
             tags = sorted(t for t in schema_tags(s) if t in ("record", "enum", "fixed", "ref", "union", "map", "array", "bytes")) + risks
             if has_empty_key(v):
@@ -235,6 +236,14 @@ def run(tier, seed):
                 case["text"], case["back"] = it["text"][:400], back
                 run.fail(case, "json_reader does not return the written record", kind="oracle")
                 continue
+            if "ok" in wr:
+                run.tag("read-back:theorem-domain")
+                if by_value(canon(back["ok"][0])) != by_value(canon(wr["ok"])):
+                    case["json_value"], case["written"] = back["ok"][0], wr["ok"]
+                    run.fail(case, "json_reader does not return the record as written (Spec.written)", kind="oracle")
+                    continue
+            else:
+                run.tag("read-back:outside-theorem-domain")
             if binv is not None and by_value(canon(back["ok"][0])) != by_value(canon(binv)):
                 case["json_value"], case["binary_value"] = back["ok"][0], binv
                 run.fail(case, "record decoded from JSON differs from the one decoded from the binary encoding", kind="oracle")
